@@ -19,11 +19,21 @@ EXPL = ("Linear-ownership analysis of table entries over every enumerated path (
         "expansion into a larger table always succeeds.")
 FILES = ["cuckoo/cuckoo.py", "cuckoo/countingcuckoo.py"]
 CTXS = {"CuckooFilter": "_insert_fingerprint", "CountingCuckooFilter": "_insert_fingerprint_alt"}
+# functions whose calls stay summarised as call events; every other helper (including ones a refactoring may introduce) is inlined
+ANCHORS = ("_check_if_present", "_insert_fingerprint", "_insert_fingerprint_alt", "_deal_with_insertion", "_expand_logic", "_setup_expand",
+           "_generate_fingerprint_info", "_indicies_from_fingerprint", "add", "remove", "check", "expand", "export", "_load", "_parse_buckets",
+           "_parse_bucket", "_parse_footer", "__init__", "increment", "decrement", "_set_error_rate", "_calc_error_rate", "_calc_fingerprint_size",
+           "load_factor", "get_x_bits", "resolve_path", "is_valid_file")
+
+
+def cpaths(prog, ctx, f, extra_inline=()):
+    """paths with every non-anchor helper inlined"""
+    return paths(prog, ctx, f, inline="deep", no_inline=tuple(a for a in ANCHORS if a != f.src_name and a not in extra_inline))
 
 
 def insert_paths(prog, ctx):
     f = prog.method(ctx, CTXS[ctx])
-    return f, paths(prog, ctx, f, force_inline=("__insert_element",))
+    return f, cpaths(prog, ctx, f)
 
 
 def insert_flows(prog, ctx):
@@ -86,7 +96,7 @@ def check_expand(prog, rep, ctx):
     where = f"{ctx}._setup_expand"
     good = True
     cap = ("f", SELF, "_cuckoo_capacity", 0)
-    for p in paths(prog, ctx, se):
+    for p in cpaths(prog, ctx, se):
         if p.exit[0] != "return":
             continue
         lst = p.exit[1]
@@ -96,10 +106,26 @@ def check_expand(prog, rep, ctx):
         kill = [e for e in evs if e.kind == "setfield" and e.name == TABLE and e.base == SELF]
         capw = [e for e in evs if e.kind == "setfield" and e.name == "_cuckoo_capacity" and e.base == SELF]
         extra_known = [c for c in p.conds if strip_epochs(c.atom) == ("cmp", "isnot", ("p", "extra_fingerprint"), C(None))]
-        if lst[0] != "newb":
+        def fresh_leaves(v):
+            if v[0] == "phi":
+                return fresh_leaves(v[2]) + fresh_leaves(v[3])
+            return [v]
+        leaves = fresh_leaves(lst)
+        if not all(v[0] in ("newb", "lst") for v in leaves):
             rep.bad("C03.capture-all", where, f"returns {nshow(lst)}", "the collected entries are not returned as a fresh list", se.where())
             good = False
             break
+        if lst[0] == "phi":
+            # conditional-expression form:  [extra] if extra is not None else []
+            c_ = strip_epochs(lst[1])
+            isnot = c_ == ("cmp", "isnot", ("p", "extra_fingerprint"), C(None))
+            isn = c_ == ("cmp", "is", ("p", "extra_fingerprint"), C(None))
+            with_extra = lst[2] if isnot else (lst[3] if isn else None)
+            if with_extra is None or not (with_extra[0] == "lst" and ("p", "extra_fingerprint") in with_extra[1]):
+                rep.bad("C03.capture-all", where, "left-over not collected", "the left-over entry handed to the expansion is not added to the list of entries to re-insert", se.where())
+                good = False
+                break
+            extra_known = [type("C_", (), {"truth": False})()]  # handled
         if extra_known and extra_known[0].truth:
             app = [e for e in evs if e.kind == "call" and e.name == "append" and e.recv == lst and e.args and e.args[0] == ("p", "extra_fingerprint")]
             if not app:
@@ -142,7 +168,7 @@ def check_expand(prog, rep, ctx):
     ins_name = CTXS[ctx]
     okl = True
     seen_loop = False
-    for p in paths(prog, ctx, el):
+    for p in cpaths(prog, ctx, el):
         calls = [e for e in p.events if e.kind == "call" and e.target is not None]
         su = [e for e in calls if e.name == "_setup_expand"]
         if len(su) != 1 or su[0].args[:1] != [("p", "extra_fingerprint")]:
@@ -189,7 +215,7 @@ def check_failure_handling(prog, rep, ctx):
     where = f"{ctx}._deal_with_insertion"
     fin = ("p", "finger")
     ok = True
-    for p in paths(prog, ctx, d):
+    for p in cpaths(prog, ctx, d):
         none = [c for c in p.conds if strip_epochs(c.atom) in (("cmp", "is", fin, C(None)), ("cmp", "isnot", fin, C(None)))]
         if not none:
             rep.bad("C03.left-over-handled", where, "left-over not inspected", "the handler does not look at the left-over entry", d.where())
@@ -214,7 +240,7 @@ def check_failure_handling(prog, rep, ctx):
     add = prog.method(ctx, "add")
     ins_name = CTXS[ctx]
     oka = True
-    for p in paths(prog, ctx, add):
+    for p in cpaths(prog, ctx, add):
         ins = [e for e in p.events if e.kind == "call" and e.name == ins_name]
         if not ins:
             continue
@@ -226,7 +252,7 @@ def check_failure_handling(prog, rep, ctx):
     if oka:
         rep.ok("C03.left-over-handled", f"{ctx}.add: insert result -> _deal_with_insertion")
     ex = prog.method(ctx, "expand")
-    oke = any(e.kind == "call" and e.name == "_expand_logic" and e.args[:1] == [C(None)] for p in paths(prog, ctx, ex) for e in p.events)
+    oke = any(e.kind == "call" and e.name == "_expand_logic" and e.args[:1] == [C(None)] for p in cpaths(prog, ctx, ex) for e in p.events)
     if oke:
         rep.ok("C03.left-over-handled", f"{ctx}.expand -> _expand_logic(None)")
     else:
@@ -237,7 +263,7 @@ def check_remove_and_candidates(prog, rep, ctx):
     rm = prog.method(ctx, "remove")
     where = f"{ctx}.remove"
     ok = True
-    for p in paths(prog, ctx, rm):
+    for p in cpaths(prog, ctx, rm):
         mut = [e for e in p.events if (e.kind == "call" and e.d.get("mutates") and e.recv is not None and outer_field(e.recv) == TABLE)
                or e.kind == "setelem" and outer_field(e.cont) == TABLE]
         pres = [c for c in p.conds if c.atom[0] == "cmp" and c.atom[1] in ("is", "isnot") and strip_epochs(c.atom[2])[0] == "ret"
@@ -258,7 +284,7 @@ def check_remove_and_candidates(prog, rep, ctx):
     # candidate buckets depend on the fingerprint and the capacity only
     ix = prog.method(ctx, "_indicies_from_fingerprint")
     reads = set()
-    for p in paths(prog, ctx, ix):
+    for p in cpaths(prog, ctx, ix):
         if p.exit[0] == "return":
             for n in walk(p.exit[1]):
                 if n[0] == "f" and n[1] == SELF:
